@@ -22,10 +22,73 @@ def make_sim(kind, **kw):
     return SimA(**kw)
 
 
+CURRENT = {'rec': None, 'case': None, 'result_file': None, 'prop': None}
+STALL_SECONDS = 90
+
+
+def start_stall_watch(result_file, prop):
+    """Worker-side detector of a task of the system under test that blocks on
+    a REAL primitive (an OS lock, a real sleep, real I/O) instead of a virtual
+    one: the engines can then make no progress and no virtual watchdog can
+    fire. If one scheduling step / loop iteration has been executing for
+    STALL_SECONDS of wall time and two stack samples taken 3 s apart are
+    identical, the current case is reported as a violation ('a worker stays
+    blocked') with the stacks as witness, and the worker exits."""
+    import json
+    import os
+    import sys
+    import threading
+    import time
+    import traceback
+    from vf import vsched
+    CURRENT['result_file'], CURRENT['prop'] = result_file, prop
+    main_id = threading.main_thread().ident
+
+    def stacks():
+        out = []
+        for tid, fr in sys._current_frames().items():
+            if tid == threading.get_ident():
+                continue
+            st = traceback.format_stack(fr)
+            if any('/engineio/' in x for x in st):
+                out.append(''.join(st[-6:]))
+        return out
+
+    def watch():
+        while True:
+            time.sleep(3)
+            if not vsched.BUSY['inside'] or CURRENT['rec'] is None:
+                continue
+            if time.monotonic() - vsched.BUSY['t'] < STALL_SECONDS:
+                continue
+            t0 = vsched.BUSY['t']
+            a = stacks()
+            time.sleep(3)
+            if vsched.BUSY['t'] != t0 or not vsched.BUSY['inside']:
+                continue
+            b = stacks()
+            if not a or a != b:
+                continue
+            rec, case = CURRENT['rec'], CURRENT['case']
+            rec.viol('blocked-on-a-real-primitive', 'a task of the package '
+                     'has been blocked for %d s of wall time inside one '
+                     'scheduling step, on something that is not one of the '
+                     'injected (virtual) primitives - a real lock / sleep / '
+                     'I/O call; the worker can never finish. Stack(s): %s' % (
+                         STALL_SECONDS, ' || '.join(a)[-1800:]), case)
+            res = rec.result()
+            with open(result_file + '.tmp', 'w') as f:
+                json.dump(res, f, default=str)
+            os.replace(result_file + '.tmp', result_file)
+            os._exit(0)
+    threading.Thread(target=watch, daemon=True, name='vf-stall').start()
+
+
 def run_cases(rec, cases, fn, max_harness_errors=3):
     """Run fn(rec, case) for each case; harness exceptions are inconclusive,
     never violations."""
     for case in cases:
+        CURRENT['rec'], CURRENT['case'] = rec, case
         try:
             fn(rec, case)
         except Exception:
